@@ -7,6 +7,12 @@
 // handshake, application byte and handler run is attributable to exactly one
 // call.  The oracle of a call is a pure function of that call's own
 // (presented chain, fingerprint string).
+//
+// Further dimensions live in files of their own: procconf.go (what the
+// process put on http.DefaultClient), twins.go (certificates that agree in
+// everything but the key, called in both orders within one process), hosts.go
+// (the host of the C2 URL spelled as a name: root dot, case, IDN; reached
+// through a CONNECT proxy named by HTTPS_PROXY).
 package c13
 
 import (
@@ -58,6 +64,10 @@ type identity struct {
 	Class string   `json:"class"` // selfsigned | ca-valid | ca-wrongsan | ca-expired | ca-untrusted
 	Chain [][]byte `json:"chain"` // DER, leaf first
 	Key   []byte   `json:"key"`   // PKCS#8 of the leaf key
+	// Group > 0: member of a certificate-twin group (twins.go): certificates that agree in
+	// everything but the key (clone), or in nothing but the key (recert), with the group's "real".
+	Group int    `json:"twin_group,omitempty"`
+	Role  string `json:"twin_role,omitempty"` // real | clone | clone2 | recert
 
 	pins [][]byte // sha256(RawSubjectPublicKeyInfo) of every presented certificate
 	cert tls.Certificate
@@ -161,7 +171,7 @@ var loop = []net.IP{net.ParseIP("127.0.0.1")}
 
 // genIdentities makes nSelf self-signed identities with chains of 1–3
 // certificates and nCA of each CA-signed class, and returns the CA (PEM).
-func genIdentities(nSelf, nCA int) ([]*identity, []byte, error) {
+func genIdentities(nSelf, nCA, nTwin int) ([]*identity, []byte, error) {
 	var ids []*identity
 	add := func(class string, key *ecdsa.PrivateKey, chain ...[]byte) error {
 		kb, err := x509.MarshalPKCS8PrivateKey(key)
@@ -223,7 +233,7 @@ func genIdentities(nSelf, nCA int) ([]*identity, []byte, error) {
 			if err != nil {
 				return nil, nil, err
 			}
-			s, ips, dns, exp := ca, loop, []string(nil), false
+			s, ips, dns, exp := ca, loop, sanNames, false
 			switch class {
 			case "ca-wrongsan":
 				ips, dns = []net.IP{net.ParseIP("127.0.0.2")}, []string{"c13.invalid"}
@@ -276,6 +286,12 @@ func genIdentities(nSelf, nCA int) ([]*identity, []byte, error) {
 		if err := add("exotic-extra", k, leaf, ex, x); err != nil {
 			return nil, nil, err
 		}
+	}
+	// certificate twins (twins.go): same certificate content, different keys
+	if err := genTwinGroups(nTwin, ca, caDER, add, func(g int, role string) {
+		ids[len(ids)-1].Group, ids[len(ids)-1].Role = g, role
+	}); err != nil {
+		return nil, nil, err
 	}
 	return ids, pem.EncodeToMemory(&pem.Block{Type: "CERTIFICATE", Bytes: caDER}), nil
 }
@@ -663,6 +679,8 @@ type endpoint struct {
 	handlerRuns  int
 	echoed       int
 	reqLine      string
+	sni          string // server name of the last client hello
+	sniSeen      bool
 	events       []string
 	conns        map[net.Conn]struct{}
 	closed       bool
@@ -702,6 +720,13 @@ func (l monListener) Accept() (net.Conn, error) {
 		c, err := ep.tcp.Accept()
 		if err != nil {
 			return nil, err
+		}
+		if !ownSocket(c.RemoteAddr()) {
+			// not a client of this process (see ownSocket): not part of any call
+			foreignConns.Add(1)
+			ep.logf("connection from %s, which is no socket of this process: ignored", c.RemoteAddr())
+			c.Close()
+			continue
 		}
 		ep.mu.Lock()
 		if ep.probeAddr != "" && c.RemoteAddr().String() == ep.probeAddr {
@@ -747,11 +772,12 @@ func startEndpoint(id *identity, kind string, h2, tls13 bool) (*endpoint, error)
 		Certificates: []tls.Certificate{id.cert},
 		MinVersion:   tls.VersionTLS12,
 		NextProtos:   []string{"http/1.1"},
-		GetConfigForClient: func(*tls.ClientHelloInfo) (*tls.Config, error) {
+		GetConfigForClient: func(h *tls.ClientHelloInfo) (*tls.Config, error) {
 			ep.mu.Lock()
 			ep.clientHellos++
+			ep.sni, ep.sniSeen = h.ServerName, true
 			ep.mu.Unlock()
-			ep.logf("client-hello")
+			ep.logf("client-hello sni=%q", h.ServerName)
 			return nil, nil
 		},
 	}
@@ -1096,6 +1122,14 @@ type callSpec struct {
 	// Scheme is how the scheme of the C2 URL is spelled: https | HTTPS | Https | hTTpS.
 	// Schemes are case-insensitive (RFC 3986 §3.1), the oracle never looks at it.
 	Scheme string `json:"url_scheme"`
+	// Host is how the host of the C2 URL is spelled ("" = the listener's IP literal);
+	// HostKind names the generator's class (hosts.go).  The oracle of a pinned call
+	// never looks at it; that of an un-pinned call asks whether the certificate names it.
+	Host     string `json:"url_host,omitempty"`
+	HostKind string `json:"url_host_kind,omitempty"`
+	// Role / PinRole: twin role of the server and of the identity whose pin is configured (twins.go).
+	Role    string `json:"twin_role,omitempty"`
+	PinRole string `json:"pin_of_twin_role,omitempty"`
 }
 
 // schemeVariants are the not-all-lower-case spellings of the scheme.
@@ -1106,10 +1140,17 @@ func (s callSpec) lowerScheme() bool { return s.Scheme == "" || s.Scheme == "htt
 // c2 is the URL handed to simpleshell.Go for this call against ep: the
 // endpoint's URL with the scheme spelled as the call wants it.
 func (s callSpec) c2(ep *endpoint) string {
-	if rest, ok := strings.CutPrefix(ep.url, "https://"); ok && !s.lowerScheme() {
+	u := ep.url
+	if rest, ok := strings.CutPrefix(u, "https://"); ok && s.Host != "" {
+		if _, port, err := net.SplitHostPort(ep.tcp.Addr().String()); err == nil {
+			_, path, _ := strings.Cut(rest, "/")
+			u = "https://" + s.Host + ":" + port + "/" + path
+		}
+	}
+	if rest, ok := strings.CutPrefix(u, "https://"); ok && !s.lowerScheme() {
 		return s.Scheme + "://" + rest
 	}
-	return ep.url
+	return u
 }
 
 type callResult struct {
@@ -1126,6 +1167,9 @@ type callResult struct {
 	HandlerRuns  int         `json:"handler_runs"`
 	Echoed       int         `json:"tokens_echoed"`
 	ReqLine      string      `json:"request_line,omitempty"`
+	SNI          string      `json:"sni_of_last_client_hello,omitempty"`
+	SNISeen      bool        `json:"client_hello_seen,omitempty"`
+	Connects     []string    `json:"connect_requests_at_the_harness_proxy,omitempty"`
 	Events       []string    `json:"server_events,omitempty"`
 	SnapDiff     []string    `json:"default_client_diff,omitempty"`
 	PinnedBefore int64       `json:"pinned_calls_started_before_in_process"`
@@ -1141,9 +1185,14 @@ type world struct {
 	ids    []*identity
 	self   []*identity
 	cav    map[string][]*identity
-	pinned atomic.Int64   // well-formed pinned calls started in this process
-	cache  *countingCache // != nil: this process has given http.DefaultTransport a TLS client session cache
-	pc     *procConf      // what this process has put on http.DefaultClient before the first call (procconf.go)
+	pinned atomic.Int64                 // well-formed pinned calls started in this process
+	cache  *countingCache               // != nil: this process has given http.DefaultTransport a TLS client session cache
+	pc     *procConf                    // what this process has put on http.DefaultClient before the first call (procconf.go)
+	groups map[int]map[string]*identity // certificate-twin groups by number and role (twins.go)
+	gorder []int
+	proxy  *connectProxy // != nil: this process has HTTPS_PROXY pointing at the harness's CONNECT proxy (hosts.go)
+	direct bool          // "localhost" resolves to 127.0.0.1 in this process without the proxy
+	shook  map[int]int   // identity -> sequential calls of this process in which it was sent a client hello
 	mu     sync.Mutex
 	hist   []string
 	seen   map[string]int
@@ -1198,7 +1247,7 @@ func (w *world) exec(spec callSpec, snap bool) *callResult { return w.execOn(spe
 func (w *world) execOn(spec callSpec, snap bool, shared *endpoint) *callResult {
 	r := w.r
 	id := w.ids[spec.Ident]
-	res := &callResult{Spec: spec, Exp: oracle(id, spec.FP)}
+	res := &callResult{Spec: spec, Exp: oracleCall(id, spec)}
 	ep := shared
 	var base [7]int
 	if ep == nil {
@@ -1280,8 +1329,12 @@ func (w *world) execOn(spec callSpec, snap bool, shared *endpoint) *callResult {
 	res.Accepts, res.ClientHellos, res.Handshakes = ep.accepts-base[0], ep.clientHellos-base[1], ep.handshakes-base[2]
 	res.AppByteConns, res.AppBytes, res.HandlerRuns, res.Echoed = ep.appByteConns-base[3], ep.appBytes-base[4], ep.handlerRuns-base[5], ep.echoed-base[6]
 	res.ReqLine = ep.reqLine
+	res.SNI, res.SNISeen = ep.sni, ep.sniSeen
 	res.Events = append([]string(nil), ep.events...)
 	ep.mu.Unlock()
+	if w.proxy != nil {
+		res.Connects = w.proxy.connectsTo(ep.tcp.Addr().String())
+	}
 	res.PinnedByEnd = w.pinned.Load()
 	switch {
 	case res.Watchdog:
@@ -1321,6 +1374,14 @@ func (w *world) judge(res *callResult) (key, what string) {
 		key += ":scheme-case"
 		what += fmt.Sprintf(" [C2 URL %q: scheme spelled %q]", res.C2, res.Spec.Scheme)
 	}
+	if key != "" && res.Spec.Host != "" {
+		key += ":host-name"
+		what += fmt.Sprintf(" [C2 URL %q: host spelled as a name (%s), server name in the client hello %q, CONNECT requests at the harness's proxy %q]", res.C2, res.Spec.HostKind, res.SNI, res.Connects)
+	}
+	if id := w.ids[res.Spec.Ident]; key != "" && id.Group > 0 {
+		key += ":certificate-twin"
+		what += fmt.Sprintf(" [the server is the %q of certificate-twin group %d (%s); the fingerprint is the pin of the group's %q]", id.Role, id.Group, twinText, res.Spec.PinRole)
+	}
 	return key, what
 }
 
@@ -1353,6 +1414,7 @@ func (w *world) judge0(res *callResult) (key, what string) {
 	} else {
 		r.Count("url_scheme:https", 1)
 	}
+	w.countHost(res)
 	wsKind := whitespaceKind(s.FP)
 	switch wsKind {
 	case "blank":
@@ -1490,7 +1552,7 @@ func (w *world) judge0(res *callResult) (key, what string) {
 		case e.AltOutright && res.Observed == "refused-outright":
 			r.Count("newline_fingerprints_refused_outright", 1)
 		case !e.Pinned:
-			return "unpinned-valid-chain-refused" + after, "no fingerprint, certificate chains to the trusted CA and names 127.0.0.1, yet refused: " + res.Err
+			return "unpinned-valid-chain-refused" + after, "no fingerprint, certificate chains to the trusted CA and names the host of the URL, yet refused: " + res.Err
 		default:
 			return "pinned-match-refused", fmt.Sprintf("%s matches the certificate at position %d, yet refused (%s): %s", desc, e.MatchPos, res.Observed, res.Err)
 		}
@@ -1658,7 +1720,14 @@ func (w *world) genCall(rng *mrand.Rand) callSpec {
 }
 
 func shape(s callSpec, e expectation) string {
-	return fmt.Sprintf("%s/%s/len%d/pos%d/%s/h2=%v/tls13=%v/%s/scheme=%s", s.Spelling, s.Class, s.ChainLen, e.MatchPos, s.Kind, s.H2 && s.Kind == "https", s.TLS13, e.Expect, s.Scheme)
+	sh := fmt.Sprintf("%s/%s/len%d/pos%d/%s/h2=%v/tls13=%v/%s/scheme=%s", s.Spelling, s.Class, s.ChainLen, e.MatchPos, s.Kind, s.H2 && s.Kind == "https", s.TLS13, e.Expect, s.Scheme)
+	if s.HostKind != "" {
+		sh += "/host=" + s.HostKind
+	}
+	if s.Role != "" {
+		sh += "/twin=" + s.Role + "<-" + s.PinRole
+	}
+	return sh
 }
 
 // ---- engines (child side) --------------------------------------------------------
@@ -1773,7 +1842,14 @@ func (w *world) runSame(index int, sample bool) {
 func brief(specs []callSpec) []string {
 	var out []string
 	for _, s := range specs {
-		out = append(out, fmt.Sprintf("%s(%s)->%s://id%d/%s/%s", s.Intent, s.Spelling, s.Scheme, s.Ident, s.Class, s.Kind))
+		b := fmt.Sprintf("%s(%s)->%s://id%d/%s/%s", s.Intent, s.Spelling, s.Scheme, s.Ident, s.Class, s.Kind)
+		if s.Host != "" {
+			b += " host=" + s.Host
+		}
+		if s.Role != "" {
+			b += " twin-role=" + s.Role
+		}
+		out = append(out, b)
 	}
 	return out
 }
@@ -1808,7 +1884,7 @@ func (w *world) runConc(engine string, index int, specs []callSpec, sample bool)
 	diff := snapDiff(before, w.takeSnap())
 	var sig []string
 	for _, s := range specs {
-		sig = append(sig, shape(s, oracle(w.ids[s.Ident], s.FP)))
+		sig = append(sig, shape(s, oracleCall(w.ids[s.Ident], s)))
 	}
 	sort.Strings(sig)
 	r.Eval(1) // the set as a schedule, besides its calls
@@ -2013,6 +2089,17 @@ func Child(args []string) int {
 	} else {
 		r.Count("snapshot_monitor_controls_passed", 1)
 	}
+	if engine == "twin" {
+		w.verifyTwins()
+	}
+	if engine == "host" {
+		// before the first request of this process: net/http reads the environment once
+		if err := w.useConnectProxy(); err != nil {
+			r.Inconclusive("child cannot start its CONNECT proxy: " + err.Error())
+			r.DumpChild(dump)
+			return 2
+		}
+	}
 	for i := start; i < start+count; i++ {
 		switch engine {
 		case "single":
@@ -2029,7 +2116,16 @@ func Child(args []string) int {
 		case "ca":
 			w.caScript(i)
 			w.observations(i)
+		case "twin":
+			w.runTwin(i, i < 2)
+			r.Count("twin_sequences", 1)
+		case "host":
+			w.runHost(i, i < 2)
+			r.Count("host_sequences", 1)
 		}
+	}
+	if w.proxy != nil {
+		w.proxy.finish(r)
 	}
 	if !w.pc.inPlace() {
 		// every single replacement has been reported by the snapshots already
@@ -2049,6 +2145,7 @@ func Child(args []string) int {
 		r.Count("process_session_cache_hits", w.cache.hits.Load())
 		r.Count("process_session_cache_stores", w.cache.stores.Load())
 	}
+	r.Count("connections_from_other_processes_ignored_by_the_listeners", foreignConns.Load())
 	if err := r.DumpChild(dump); err != nil {
 		fmt.Fprintln(os.Stderr, err)
 		return 2
@@ -2065,12 +2162,18 @@ func loadWorld(r *mon.Run, path string) (*world, error) {
 	if err := json.Unmarshal(b, &f); err != nil {
 		return nil, err
 	}
-	w := &world{r: r, ids: f.IDs, cav: map[string][]*identity{}}
+	w := &world{r: r, ids: f.IDs, cav: map[string][]*identity{}, groups: map[int]map[string]*identity{}, shook: map[int]int{}}
 	for _, id := range w.ids {
 		if err := id.load(); err != nil {
 			return nil, err
 		}
-		if id.Class == "selfsigned" {
+		if id.Group > 0 {
+			if w.groups[id.Group] == nil {
+				w.groups[id.Group] = map[string]*identity{}
+				w.gorder = append(w.gorder, id.Group)
+			}
+			w.groups[id.Group][id.Role] = id
+		} else if id.Class == "selfsigned" {
 			w.self = append(w.self, id)
 		} else {
 			w.cav[id.Class] = append(w.cav[id.Class], id)
@@ -2089,7 +2192,7 @@ type batch struct {
 }
 
 func Run(r *mon.Run) {
-	r.Rule = "every call to simpleshell.Go (EchoShell) is made in a child process against a listener created for that call alone, so that TCP accepts, client hellos, completed handshakes, application bytes, handler runs and echoed tokens are attributed to one call. Servers: raw crypto/tls listeners answering HTTP/1.1 by hand (log handshake-done / first-application-byte) and net/http servers (HTTP/2 or 1.1, full duplex, header flushed at once); TLS 1.2 or 1.3; identities = fresh P-256 keys, self-signed with chains of 1–3 certificates (extras are unrelated self-signed P-256/Ed25519 certificates), plus leaves signed by a harness CA that the children trust through SSL_CERT_FILE (valid / wrong SAN / expired / signed by an untrusted CA). Engines: single = every key × every spelling class (" + strconv.Itoa(len(spellAll)) + " classes: exact, prefixed, match at chain position 1/2, non-canonical padding bits, CR/LF, other server's pin, single-bit flips in either half, certificate hash, double prefix, no padding, URL alphabet, 31/33 bytes, hex, prefix only, garbage, spaces, …, no fingerprint; and white space: " + strconv.Itoa(len(spellBlank)) + " whitespace-only strings - one space / tab / LF / CR / CRLF / NBSP, 2–52 spaces, PRNG mixes of space, tab, CR, LF, VT, FF, NBSP, NEL, em and ideographic space, sha256// followed by nothing but such - and " + strconv.Itoa(len(spellWhitespace)-len(spellBlank)) + " forms of a pin with white space around it - LF / CRLF / tab / NBSP / space / PRNG mixes before, after or on both sides of this server's or another server's pin, between or before the prefix), one key per process in PRNG order; seq = PRNG sequences of 2–6 calls (30% right, 20% wrong, 13% malformed, 4% whitespace-only, 3% whitespace-padded, 30% un-pinned; 60% self-signed / 20% CA-valid / 20% CA-invalid servers, every second white-space call against a CA-valid server, where being taken for 'no fingerprint' shows as an exchange), 10 sequences per process; conc = 2–8 such calls released together by a barrier, 5 sets per process, every deviating call repeated alone; same = 2–5 calls of one process against ONE listener (right then wrong pin, wrong-right-wrong, malformed and un-pinned in between; 7 patterns, 7 sequences per process), every second process of this engine first configured like an application that wants TLS session resumption (http.DefaultTransport.TLSClientConfig = &tls.Config{ClientSessionCache: LRU}, set before the transport's first use and before every snapshot; un-pinned calls keep ordinary validation), and after each sequence the harness's own TLS client shows that the listener does let a second connection resume a session (TLS 1.2 and 1.3); ca = a fixed script (un-pinned round over all identity classes, pinned calls, three whitespace-only and three whitespace-padded fingerprints (PRNG choice) against CA-valid servers, un-pinned round, concurrent mix, un-pinned round), one script per process. PROCESS CONFIGURATION: before its first call a child process puts on http.DefaultClient what an embedding application may have put there - stock (Transport nil); an *http.Transport of its own: &http.Transport{}, a Clone of http.DefaultTransport, one with its own TLSClientConfig (RootCAs = the trusted CA, ServerName 127.0.0.1, MinVersion) and timeouts, one with a Proxy func returning nil, a Clone with DisableKeepAlives; a RoundTripper that is not an *http.Transport around a Clone; http.DefaultClient replaced by &http.Client{Timeout, Jar} without and with a transport of its own - a function of (engine, batch number): every second process of seq / conc / single and of same (those without session cache), and all ca processes but the first, are configured (" + strconv.Itoa(len(clientConfigs)) + " configurations); under every configuration ordinary validation is what the oracle assumes (roots = the harness CA, name = 127.0.0.1), so the oracle of a call stays a function of its own chain and fingerprint. In every engine one call in four spells the scheme of its C2 URL HTTPS://, Https:// or hTTpS:// (PRNG). Oracle of a call = function of its own presented chain and fingerprint string only: un-pinned ⇒ accept iff the leaf chains to the trusted CA, names 127.0.0.1 and is in date (by construction); pinned ⇒ strip one sha256// prefix, decode as RFC 4648 standard base64 (harness decoder cross-checked against encoding/base64), 32 bytes else refuse outright (no TCP connection may reach the server), accept iff equal to SHA-256 of the SubjectPublicKeyInfo of SOME presented certificate, else refuse with zero application bytes. Negative observations are read after a probe connection of the harness has been accepted behind the call's own connections and all server-side handlers have ended. Snapshot before and after every call (around the whole set for concurrent calls) of http.DefaultClient (identity, Transport, CheckRedirect, Jar, Timeout), of every exported field of http.DefaultTransport and of the *http.Transport the process put on http.DefaultClient (also inside the wrapper, also when it is no longer where the process put it) - scalars by value, functions / pointers / interfaces by identity, maps by identity and keys, slices by identity, length and elements - and of every exported field of their TLSClientConfig (deep: InsecureSkipVerify, VerifyConnection, RootCAs, ServerName, NextProtos, Min/MaxVersion, ClientSessionCache, …); in every process the monitor first passes a positive control on a throw-away clone (TLS configuration replaced, edited in place, ForceAttemptHTTP2 flipped: each must be reported). distinct_nontrivial = distinct call shapes (spelling class, identity class, chain length, match position, server kind, protocol, TLS version, expected outcome) plus distinct sequence / set shapes (the ordered resp. sorted list of call shapes)"
+	r.Rule = "every call to simpleshell.Go (EchoShell) is made in a child process against a listener created for that call alone, so that TCP accepts, client hellos, completed handshakes, application bytes, handler runs and echoed tokens are attributed to one call. Servers: raw crypto/tls listeners answering HTTP/1.1 by hand (log handshake-done / first-application-byte) and net/http servers (HTTP/2 or 1.1, full duplex, header flushed at once); TLS 1.2 or 1.3; identities = fresh P-256 keys, self-signed with chains of 1–3 certificates (extras are unrelated self-signed P-256/Ed25519 certificates), plus leaves signed by a harness CA that the children trust through SSL_CERT_FILE (valid / wrong SAN / expired / signed by an untrusted CA). Engines: single = every key × every spelling class (" + strconv.Itoa(len(spellAll)) + " classes: exact, prefixed, match at chain position 1/2, non-canonical padding bits, CR/LF, other server's pin, single-bit flips in either half, certificate hash, double prefix, no padding, URL alphabet, 31/33 bytes, hex, prefix only, garbage, spaces, …, no fingerprint; and white space: " + strconv.Itoa(len(spellBlank)) + " whitespace-only strings - one space / tab / LF / CR / CRLF / NBSP, 2–52 spaces, PRNG mixes of space, tab, CR, LF, VT, FF, NBSP, NEL, em and ideographic space, sha256// followed by nothing but such - and " + strconv.Itoa(len(spellWhitespace)-len(spellBlank)) + " forms of a pin with white space around it - LF / CRLF / tab / NBSP / space / PRNG mixes before, after or on both sides of this server's or another server's pin, between or before the prefix), one key per process in PRNG order; seq = PRNG sequences of 2–6 calls (30% right, 20% wrong, 13% malformed, 4% whitespace-only, 3% whitespace-padded, 30% un-pinned; 60% self-signed / 20% CA-valid / 20% CA-invalid servers, every second white-space call against a CA-valid server, where being taken for 'no fingerprint' shows as an exchange), 10 sequences per process; conc = 2–8 such calls released together by a barrier, 5 sets per process, every deviating call repeated alone; same = 2–5 calls of one process against ONE listener (right then wrong pin, wrong-right-wrong, malformed and un-pinned in between; 7 patterns, 7 sequences per process), every second process of this engine first configured like an application that wants TLS session resumption (http.DefaultTransport.TLSClientConfig = &tls.Config{ClientSessionCache: LRU}, set before the transport's first use and before every snapshot; un-pinned calls keep ordinary validation), and after each sequence the harness's own TLS client shows that the listener does let a second connection resume a session (TLS 1.2 and 1.3); ca = a fixed script (un-pinned round over all identity classes, pinned calls, three whitespace-only and three whitespace-padded fingerprints (PRNG choice) against CA-valid servers, un-pinned round, concurrent mix, un-pinned round), one script per process. PROCESS CONFIGURATION: before its first call a child process puts on http.DefaultClient what an embedding application may have put there - stock (Transport nil); an *http.Transport of its own: &http.Transport{}, a Clone of http.DefaultTransport, one with its own TLSClientConfig (RootCAs = the trusted CA, ServerName 127.0.0.1, MinVersion) and timeouts, one with a Proxy func returning nil, a Clone with DisableKeepAlives; a RoundTripper that is not an *http.Transport around a Clone; http.DefaultClient replaced by &http.Client{Timeout, Jar} without and with a transport of its own - a function of (engine, batch number): every second process of seq / conc / single and of same (those without session cache), and all ca processes but the first, are configured (" + strconv.Itoa(len(clientConfigs)) + " configurations); under every configuration ordinary validation is what the oracle assumes (roots = the harness CA, name = 127.0.0.1), so the oracle of a call stays a function of its own chain and fingerprint. In every engine one call in four spells the scheme of its C2 URL HTTPS://, Https:// or hTTpS:// (PRNG). Oracle of a call = function of its own presented chain and fingerprint string only: un-pinned ⇒ accept iff the leaf chains to the trusted CA, names 127.0.0.1 and is in date (by construction); pinned ⇒ strip one sha256// prefix, decode as RFC 4648 standard base64 (harness decoder cross-checked against encoding/base64), 32 bytes else refuse outright (no TCP connection may reach the server), accept iff equal to SHA-256 of the SubjectPublicKeyInfo of SOME presented certificate, else refuse with zero application bytes. Negative observations are read after a probe connection of the harness has been accepted behind the call's own connections and all server-side handlers have ended. Snapshot before and after every call (around the whole set for concurrent calls) of http.DefaultClient (identity, Transport, CheckRedirect, Jar, Timeout), of every exported field of http.DefaultTransport and of the *http.Transport the process put on http.DefaultClient (also inside the wrapper, also when it is no longer where the process put it) - scalars by value, functions / pointers / interfaces by identity, maps by identity and keys, slices by identity, length and elements - and of every exported field of their TLSClientConfig (deep: InsecureSkipVerify, VerifyConnection, RootCAs, ServerName, NextProtos, Min/MaxVersion, ClientSessionCache, …); in every process the monitor first passes a positive control on a throw-away clone (TLS configuration replaced, edited in place, ForceAttemptHTTP2 flipped: each must be reported). CERTIFICATE CONTENT (engine twin): besides the identities above, " + strconv.Itoa(r.N(4, 16)) + " twin groups of servers whose certificates agree AT EVERY CHAIN POSITION in everything but the key - subject, issuer, serial number, validity, names, Subject Key Identifier, Authority Key Identifier (read back from the DER and verified in every process: twin_groups_verified) - self-signed leaves or leaves issued by the trusted CA resp. by a home-made CA certificate copying the trusted CA's subject, serial number and Subject Key Identifier; chains of 1-3; identifier = RFC 5280 method 1 of the real key or 8 / 20 freely chosen bytes; members real, clone, (clone2), and recert = the real KEY under a certificate with other subject, serial number and identifier. 8 sequences per process, all groups in turn, 8 patterns: real server first then the clone under the real pin and the clone's own; the clone first then the real server under its own pin; a refused handshake first; the same key under the other certificate; the pin of the second certificate of the chain; un-pinned and malformed calls in between; a barrier-released concurrent set over the group followed by a sequence; PRNG sequences of 3-6 calls over (member, pin of member, chain position). Counted: wrong-key pins configured after a handshake with the pin's owner in the same process, own-key pins after a handshake with a twin. C2 HOST SPELLING (engine host): the host of the C2 URL is a NAME instead of the listener's IP literal, " + strconv.Itoa(len(hostKinds)) + " kinds (" + strings.Join(hostKinds, ", ") + "): PRNG labels under " + hostZone + ", the single labels c13host and localhost, internationalised labels in Unicode and in xn-- spelling (table of " + strconv.Itoa(len(idnLabels)) + "), each plain, with the root dot, in PRNG mixed case; names are not resolved: the processes of this engine have HTTPS_PROXY=http://127.0.0.1:port in their environment (set before net/http first reads it), a plain CONNECT proxy run by the harness in the same process that tunnels to 127.0.0.1:<port of the request> and records the request (localhost is exempt from proxies by net/http and is connected to directly, /etc/hosts). One sequence = 7 calls to hosts of one kind in PRNG order: matching pin and wrong pin against self-signed servers, wrong pin and no fingerprint and matching pin (of the second certificate where there is one) against CA-valid servers whose certificates name *." + hostZone + ", c13host, localhost, no fingerprint against a self-signed server, a malformed fingerprint; 7 sequences per process, processes configured in turn with the " + strconv.Itoa(len(proxyHonouringConfigs)) + " client configurations whose transport consults the environment for a proxy. The listener records the server name of every client hello: counted are the calls in which it differs from the host as the URL spells it (root dot dropped by crypto/tls, Unicode label turned into an A-label by net/http) - the harness's own canonical form of the name (one root dot removed, ASCII lower case, table) must agree with the CONNECT target and with the client hello, else inconclusive. Oracle unchanged for pinned calls (the host is not looked at); an un-pinned call to a name is accepted iff the chain is valid AND the certificate names the host. distinct_nontrivial = distinct call shapes (spelling class, identity class, chain length, match position, server kind, protocol, TLS version, expected outcome) plus distinct sequence / set shapes (the ordered resp. sorted list of call shapes)"
 	r.Assumptions = []string{
 		"keys are fresh per run (crypto/rand); the seed fixes the shape of every case (identity index, spelling class, bit position, server kind, order), not the key bytes",
 		"CR and LF inside a fingerprint are skipped as RFC 4648 decoders commonly do (encoding/base64 does); for such strings both 'refused outright' and 'treated as the stripped string' are accepted",
@@ -2099,10 +2202,15 @@ func Run(r *mon.Run) {
 		"a TLS client session cache on http.DefaultTransport is process configuration the application is entitled to (it is set by the harness, in every second process of the same-server engine, before the first snapshot); the oracle of a call stays a function of its own chain and fingerprint — a session left behind by an earlier connection to the same server is exactly the kind of history the decision must not depend on",
 		"a fingerprint that is configured (non-empty) but consists of white space only - also after sha256// - is not 'no fingerprint' and is not the base64 of 32 bytes: it is malformed and must be refused outright (no connection). For a pin with white space around it the oracle follows the string alone, as for every other spelling: CR/LF are skipped (accept iff the rest matches; refusing outright tolerated), any other white space makes the string not base64, hence malformed; whatever the spelling, an exchange with a server none of whose keys the decoded string names is a violation",
 		"what an application puts on http.DefaultClient before calling the library (a transport of its own, a wrapper, another client with Timeout / Jar) is process configuration it is entitled to and exactly the 'default HTTP client settings' the statement says are left untouched: the harness installs it in the child before the first call and the first snapshot (with the transport's lazy HTTP/2 set-up already triggered), never changes it afterwards, and every configuration keeps ordinary validation as the oracle assumes (trusted roots = the harness CA, verified name 127.0.0.1); whether a pinned call goes through the application's transport / proxy function / wrapper is not judged (counted only: wrapper_round_trips, own_proxy_func_consultations)",
-		"replaying a case re-runs the whole batch that shared its process (≤10 sequences / 5 sets / one key), because the property is about process history",
+		"everything in a certificate except its SubjectPublicKeyInfo is chosen freely by whoever makes the certificate (with a fingerprint configured no chain is built, nothing ties a Subject Key Identifier, a serial number or a subject to the key): two certificates that agree in all of it and differ in the key are different servers as far as the statement goes, the same key under another certificate is the same server; the twin engine's oracle is the unchanged function of the call's own chain and fingerprint",
+		"every client the oracle speaks about lives in the process that runs the listener (the library under test, the probe, the CONNECT proxy): a connection accepted from a socket that is not one of this process's own descriptors (asked at once after accept) - a client of another process that was given this ephemeral port before - is closed, counted (connections_from_other_processes_ignored_by_the_listeners) and belongs to no call",
+		"a web proxy named by HTTPS_PROXY (scheme http://, i.e. a plain CONNECT proxy) is process environment the library is not responsible for; the CONNECT request to it is not shell traffic and is not judged; 'server' stays the TLS listener at the other end of the tunnel: a malformed fingerprint must not produce a connection to it (hence no CONNECT either), a mismatching one no application byte. The proxy stands in for name resolution only (every name is 127.0.0.1, the port selects the listener)",
+		"names: host names are case-insensitive, a trailing root dot and the Unicode / xn-- spellings of a label name the same host (RFC 3986 §3.2.2, RFC 6125 §6.4, RFC 5891); crypto/x509 matches certificate names that way, which is what 'ordinary certificate validation' means for an un-pinned call. The idn-unicode-mixedcase kind is offered HTTP/1.1 only: go1.23's net/http cannot complete an HTTP/2 request to a non-ASCII host that is not in lower case (its HTTP/1 layer and its HTTP/2 connection pool disagree on the A-label and it redials until cancelled), with or without a fingerprint",
+		"replaying a case re-runs the whole batch that shared its process (≤10 sequences / 5 sets / one key / 8 twin sequences / 7 host sequences), because the property is about process history",
 	}
 	nSelf, nCA := r.N(8, 64), r.N(3, 9)
-	ids, caPEM, err := genIdentities(nSelf, nCA)
+	nTwin := r.N(4, 16)
+	ids, caPEM, err := genIdentities(nSelf, nCA, nTwin)
 	if err != nil {
 		r.Inconclusive("cannot generate identities: " + err.Error())
 		return
@@ -2118,7 +2226,8 @@ func Run(r *mon.Run) {
 	// Go reads these once per process, at the first use of the system pool.
 	os.Setenv("SSL_CERT_FILE", caPath)
 	os.Setenv("SSL_CERT_DIR", filepath.Join(r.Work, "no-such-dir"))
-	r.Extra("identities", map[string]int{"selfsigned_keys": nSelf, "ca_signed_per_class": nCA})
+	r.Extra("identities", map[string]int{"selfsigned_keys": nSelf, "ca_signed_per_class": nCA, "twin_groups": nTwin})
+	r.Extra("url_host_kinds", hostKinds)
 	r.Extra("spelling_classes", spellAll)
 
 	var batches []batch
@@ -2152,6 +2261,8 @@ func Run(r *mon.Run) {
 	add("seq", r.N(80, 3000), 10)
 	add("same", r.N(56, 1400), 7)
 	add("single", nSelf, 1)
+	add("twin", r.N(32, 640), 8)
+	add("host", r.N(len(hostKinds)*3, len(hostKinds)*50), 7)
 	var died atomic.Int64
 	mon.Parallel(len(batches), runtime.NumCPU(), func(i int) {
 		bt := batches[i]
@@ -2177,6 +2288,54 @@ func Run(r *mon.Run) {
 	r.Count("child_processes", int64(len(batches)))
 	r.Count("child_processes_died", died.Load())
 	r.Logf("%d child processes, %d calls", len(batches), r.Counter("calls"))
+
+	r.Count("proxy_requests_other_than_connect", 0)
+	r.Count("proxy_dial_failures", 0)
+	r.Count("connections_from_other_processes_ignored_by_the_listeners", 0)
+	r.Count("host_sequences_skipped_localhost_does_not_resolve", 0)
+	// certificate content: twins
+	twinProcs := int64((r.N(32, 640) + 7) / 8)
+	r.Floor("twin_sequences", int64(r.N(32, 640)))
+	r.Floor("twin_groups_verified", twinProcs*int64(nTwin))
+	r.Floor("twin_chain_positions_verified_same_content_different_key", int64(r.N(40, 2500)))
+	r.Floor("twin_calls", int64(r.N(150, 3000)))
+	r.Floor("twin_concurrent_sets", int64(r.N(4, 80)))
+	r.Floor("twin_pin_calls_expected_refused", int64(r.N(50, 1000)))
+	r.Floor("twin_pin_calls_refused_at_handshake", int64(r.N(50, 1000)))
+	r.Floor("twin_pin_calls_after_a_handshake_with_the_pin_owner_in_this_process", int64(r.N(45, 700)))
+	r.Floor("twin_own_key_pin_calls_expected_accepted", int64(r.N(50, 1000)))
+	r.Floor("twin_own_key_pin_calls_accepted", int64(r.N(50, 1000)))
+	r.Floor("twin_own_key_pin_calls_after_a_handshake_with_a_twin_in_this_process", int64(r.N(40, 600)))
+	r.Floor("twin_pin_calls_at_chain_position_1_expected_refused", int64(r.N(6, 100)))
+	r.Floor("twin_own_key_pin_calls_at_chain_position_1_expected_accepted", int64(r.N(6, 100)))
+	r.Floor("twin_same_key_other_certificate_pin_calls", int64(r.N(4, 80)))
+	r.Floor("twin_unpinned_calls", int64(r.N(8, 160)))
+	// C2 host spelled as a name
+	hostSeqs := r.N(len(hostKinds)*3, len(hostKinds)*50)
+	hostProcs := int64((hostSeqs + 6) / 7)
+	r.Floor("host_sequences", int64(hostSeqs))
+	r.Floor("child_processes_with_https_proxy_in_the_environment", hostProcs)
+	r.Floor("child_processes_in_which_localhost_resolves_to_127_0_0_1", hostProcs)
+	r.Floor("host_calls", int64(r.N(300, 5000)))
+	for _, k := range hostKinds {
+		r.Floor("host_kind:"+k, int64(r.N(14, 250)))
+	}
+	r.Floor("host_calls_tunnelled_through_the_connect_proxy", int64(r.N(220, 3600)))
+	r.Floor("connect_targets_agreeing_with_the_harness_on_the_name", int64(r.N(220, 3600)))
+	r.Floor("host_calls_connected_directly_by_name", int64(r.N(12, 200)))
+	r.Floor("host_calls_with_client_hello", int64(r.N(240, 4000)))
+	r.Floor("host_calls_whose_client_hello_names_the_server_differently_from_the_url", int64(r.N(120, 2000)))
+	r.Floor("host_calls_whose_client_hello_names_the_server_as_the_url_does", int64(r.N(90, 1500)))
+	r.Floor("pinned_matching_host_calls_accepted", int64(r.N(80, 1300)))
+	r.Floor("pinned_mismatching_host_calls_refused_at_handshake", int64(r.N(80, 1300)))
+	r.Floor("pinned_matching_host_calls_whose_client_hello_names_the_server_differently_from_the_url", int64(r.N(40, 650)))
+	r.Floor("pinned_mismatching_host_calls_whose_client_hello_names_the_server_differently_from_the_url", int64(r.N(40, 650)))
+	r.Floor("pinned_mismatching_host_calls_to_servers_passing_ordinary_validation", int64(r.N(30, 500)))
+	r.Floor("unpinned_host_calls_accepted", int64(r.N(30, 500)))
+	r.Floor("unpinned_matching_host_calls_whose_client_hello_names_the_server_differently_from_the_url", int64(r.N(15, 250)))
+	r.Floor("unpinned_host_calls_expected_refused", int64(r.N(40, 650)))
+	r.Floor("unpinned_host_calls_to_servers_whose_valid_certificate_names_another_host", int64(r.N(4, 60)))
+	r.Floor("malformed_host_calls", int64(r.N(35, 600)))
 
 	r.Floor("calls", int64(r.N(600, 15000)))
 	r.Floor("accepts_expected", int64(r.N(150, 4000)))
